@@ -40,6 +40,12 @@ type Obligation struct {
 	Fails []Failure
 }
 
+// ExtraOb is a rule-specific obligation produced by Engine.Extra.
+type ExtraOb struct {
+	Kind, Expr string
+	Goals      []Ineq
+}
+
 // Failure is one call site that cannot establish a lifted requirement.
 type Failure struct {
 	At    ssa.Instruction
@@ -73,6 +79,11 @@ type Engine struct {
 	sumUpper map[*ssa.Function]map[[2]int]bool
 	// fieldLen / globalLen: slice-typed struct fields and package variables whose every
 	// assignment in the program stores a value of the same constant length
+	// Extra, when set, contributes further obligations for an instruction (rule-specific
+	// assertions such as "the slice handed to this callback is non-empty"); lin/seqLen give the
+	// linear forms of a value / of a sequence's length in the function's context.
+	Extra func(fn *ssa.Function, in ssa.Instruction, lin func(ssa.Value) Lin, seqLen func(ssa.Value) Lin) []ExtraOb
+
 	fieldLen  map[*types.Var]int64
 	// fieldMin: integer struct fields whose every store (program-wide) is a constant; the value
 	// is the smallest constant stored, with 0 added when some function allocates the owning
@@ -480,6 +491,11 @@ func (e *Engine) Enumerate(fn *ssa.Function) []*Obligation {
 			case *ssa.Panic:
 				add(in, "terminator", "panic", Ineq{Const(-1), "explicit panic"})
 			case ssa.CallInstruction:
+				if e.Extra != nil {
+					for _, xo := range e.Extra(fn, in, c.lin, c.seqLen) {
+						add(in, xo.Kind, xo.Expr, xo.Goals...)
+					}
+				}
 				if name, ok := terminatorCall(x); ok {
 					add(in, "terminator", name, Ineq{Const(-1), "process terminator"})
 				}
